@@ -142,8 +142,9 @@ class Program:
         for m in self.modules.values():
             self._fold_consts(m)
         # extract-method normal form: unknown private helpers are analysed through (see mdsa/inline.py)
-        from . import inline, outline
+        from . import inline, outline, sigform
 
+        self.sigform_log: List[str] = sigform.apply(self) if not os.environ.get("MDSA_NO_INLINE") and not os.environ.get("MDSA_PINNED_GEN") else []
         self.outline_log: List[str] = outline.apply(self) if not os.environ.get("MDSA_NO_INLINE") else []
         self.inline_log: List[str] = inline.apply(self) if not os.environ.get("MDSA_NO_INLINE") else []
         self.signatures = self._signatures()
